@@ -19,6 +19,7 @@ type codecRegs struct {
 	Concrete map[string]string // type name -> amino name (RegisterConcrete)
 	Impl     map[string]bool   // type name registered with RegisterImplementations((*sdk.Msg)(nil), ...)
 	OnOwn    map[string]bool   // type name registered on the module's own amino codec (the one GetSignBytes uses)
+	OnWrap   map[string]bool   // "authz" | "gov" | "group": RegisterCodec(<that module's codec.Amino>) is called from an init of the types package
 }
 
 func typeNameOfPtrArg(v ssa.Value) string {
@@ -42,7 +43,7 @@ func typeNameOfPtrArg(v ssa.Value) string {
 }
 
 func collectCodecRegs(p *Prog, typesPkg string) codecRegs {
-	cr := codecRegs{Concrete: map[string]string{}, Impl: map[string]bool{}, OnOwn: map[string]bool{}}
+	cr := codecRegs{Concrete: map[string]string{}, Impl: map[string]bool{}, OnOwn: map[string]bool{}, OnWrap: map[string]bool{}}
 	for _, fn := range p.ModFuncs {
 		if pkgPathOf(fn) != Rel(typesPkg) || p.IsGenerated(fn) {
 			continue
@@ -95,6 +96,13 @@ func collectCodecRegs(p *Prog, typesPkg string) codecRegs {
 				if arg.Op == "gval" && strings.HasSuffix(arg.Name, ".amino") {
 					// everything RegisterCodec registers is then on the module codec
 					cr.OnOwn["*"] = true
+				}
+				if arg.Op == "gval" && strings.HasPrefix(fn.Name(), "init") {
+					for _, wname := range []string{"authz", "gov", "group"} {
+						if strings.HasSuffix(arg.Name, "x/"+wname+"/codec.Amino") {
+							cr.OnWrap[wname] = true
+						}
+					}
 				}
 			}
 		}
@@ -354,6 +362,171 @@ func checkC14(p *Prog, r *Report) {
 		}
 	}
 	r.Floor("legacy-message-pairs", nPairs, 21)
+
+	// D4b hand-written JSON marshalers. go-amino's JSON encoder hands a value to its own MarshalJSON / MarshalAmino when the type has
+	// one, so for such a type the injectivity of the sign bytes is that method's, not the reflection-based encoding's. The types
+	// reachable through the fields of the custom messages that carry such a method are enumerated; each must be in the reviewed table.
+	reviewedMarshalers := map[string]string{
+		"x/did/types.JSONStringOrStrings":      "one string → that string, otherwise → array of strings: distinct values give distinct JSON (a one-element list is the only value rendered as a bare string; Unmarshal mirrors it)",
+		"x/did/types.VerificationRelationship": "reference → JSON string (the method id), embedded method → JSON object: the two forms differ in JSON kind and each is the standard encoding of its content",
+	}
+	seenT := map[string]bool{}
+	var walkT func(t types.Type, path string)
+	nMarsh := 0
+	walkT = func(t types.Type, path string) {
+		switch x := t.(type) {
+		case *types.Pointer:
+			walkT(x.Elem(), path)
+		case *types.Slice:
+			walkT(x.Elem(), path+"[]")
+		case *types.Array:
+			walkT(x.Elem(), path+"[]")
+		case *types.Map:
+			walkT(x.Elem(), path+"{}")
+		case *types.Named:
+			if x.Obj().Pkg() == nil || !strings.HasPrefix(x.Obj().Pkg().Path(), ModPath) {
+				return
+			}
+			name := shortPkg(x.String())
+			if seenT[name] {
+				return
+			}
+			seenT[name] = true
+			for _, T := range []types.Type{x, types.NewPointer(x)} {
+				ms := types.NewMethodSet(T)
+				for i := 0; i < ms.Len(); i++ {
+					mn := ms.At(i).Obj().Name()
+					if mn != "MarshalJSON" && mn != "MarshalAmino" && mn != "MarshalAminoJSON" && mn != "MarshalText" {
+						continue
+					}
+					fn, _ := ms.At(i).Obj().(*types.Func)
+					if fn == nil || fn.Pkg() == nil || !strings.HasPrefix(fn.Pkg().Path(), ModPath) {
+						continue
+					}
+					if f := p.Fset.File(fn.Pos()); f != nil && strings.HasSuffix(f.Name(), ".pb.go") {
+						continue
+					}
+					key := kp("SHAPE", "hand-written-marshaler:"+name+"."+mn)
+					if _, dup := seenT[key]; dup {
+						continue
+					}
+					seenT[key] = true
+					nMarsh++
+					if why, ok := reviewedMarshalers[name]; ok && mn == "MarshalJSON" {
+						// shape the review relies on: every return hands back encoding/json.Marshal of (a part of) the receiver
+						shapeOK := false
+						if sf := p.MethodOf(x, "MarshalJSON"); sf != nil && sf.Blocks != nil {
+							so := NewOrigin(p, sf)
+							shapeOK = true
+							for _, ret := range returnsOf(sf) {
+								t := so.Of(ret.Results[0])
+								if !(t.Op == "res" && len(t.Args) == 1 && t.Args[0].IsCall("encoding/json.Marshal")) && !t.IsCall("encoding/json.Marshal") {
+									shapeOK = false
+								}
+							}
+						}
+						if !shapeOK {
+							r.Fail(key, "a hand-written JSON marshaler on a type inside a signed message is one of the reviewed, injective ones", p.Pos(fn.Pos()),
+								name+".MarshalJSON no longer returns encoding/json.Marshal of a part of its receiver on every path: the review of its injectivity does not apply to this body")
+							continue
+						}
+						r.OK(key, "a hand-written JSON marshaler on a type inside a signed message is one of the reviewed, injective ones", p.Pos(fn.Pos()), "reviewed: "+why)
+					} else {
+						r.Fail(key, "a hand-written JSON marshaler on a type inside a signed message is one of the reviewed, injective ones", p.Pos(fn.Pos()),
+							fmt.Sprintf("%s (reached through %s) defines %s: the amino-JSON sign bytes of the messages containing it are whatever this method returns, and nothing shows that distinct values give distinct bytes (a presentation-oriented encoding — text for printable data, base64 otherwise — is not injective)", name, path, mn))
+					}
+				}
+			}
+			if st, ok := x.Underlying().(*types.Struct); ok {
+				for i := 0; i < st.NumFields(); i++ {
+					walkT(st.Field(i).Type(), path+"."+st.Field(i).Name())
+				}
+			} else {
+				walkT(x.Underlying(), path)
+			}
+		}
+	}
+	for _, m := range msgs {
+		walkT(m, m.Obj().Name())
+	}
+	r.Floor("hand-written-marshalers-on-message-types", nMarsh, 2)
+
+	// D5 wrapped messages. authz MsgExec, gov and group MsgSubmitProposal carry other messages as Any and sign, in legacy amino-JSON
+	// mode, the JSON their OWN amino codec produces for them. An inner message whose name is not registered on that codec is
+	// rendered as a bare object (go-amino writes the {"type","value"} wrapper only for registered concrete types), whatever the
+	// inner message's own GetSignBytes does — and it need not be a LegacyMsg. So every custom message must be registered on the
+	// wrapper's codec, or be separable from every other unregistered message by a required field.
+	type winfo struct{ all, req map[string]bool }
+	wi := map[string]winfo{}
+	for _, m := range msgs {
+		st, _ := m.Underlying().(*types.Struct)
+		jn := jsonNames(st)
+		i := winfo{all: map[string]bool{}, req: map[string]bool{}}
+		for _, j := range jn {
+			i.all[j] = true
+		}
+		for f := range requiredFields(p, m) {
+			if j, ok := jn[f]; ok {
+				i.req[j] = true
+			}
+		}
+		wi[m.String()] = i
+	}
+	subsetOf := func(x, y map[string]bool) bool {
+		for k := range x {
+			if !y[k] {
+				return false
+			}
+		}
+		return true
+	}
+	nWrap := 0
+	for _, wr := range []struct{ name, basic, outer string }{
+		{"authz", "x/authz", "MsgExec"}, {"gov", "x/gov", "MsgSubmitProposal"}, {"group", "x/group", "MsgSubmitProposal"}} {
+		inApp := false
+		for _, b := range w.Basics {
+			if strings.Contains(b, "cosmos-sdk/"+wr.basic) {
+				inApp = true
+			}
+		}
+		if !inApp {
+			r.Note("%s is not in ModuleBasics: no %s wrapper to consider", wr.basic, wr.outer)
+			continue
+		}
+		registered := func(m *types.Named) bool {
+			cr := regs[modOf(m)]
+			_, named := cr.Concrete[m.Obj().Name()]
+			return named && cr.OnWrap[wr.name]
+		}
+		for _, m := range msgs {
+			nWrap++
+			key := kp("WRAPPED", wr.name+"."+wr.outer+"{"+shortPkg(m.String())+"}#type-kept")
+			rule := "a custom message carried by " + wr.name + "'s " + wr.outer + " keeps its identity in the wrapper's legacy amino-JSON sign bytes: its name is registered on " + wr.name + "'s amino codec, or a required field separates it from every other unregistered custom message"
+			if registered(m) {
+				r.OK(key, rule, "x/"+strings.TrimPrefix(modOf(m), "x/")+"/types/codec.go", "RegisterCodec("+wr.name+"codec.Amino) is called from init and names "+m.Obj().Name())
+				continue
+			}
+			var clash []string
+			for _, n := range msgs {
+				if n == m || registered(n) {
+					continue
+				}
+				a, b := wi[m.String()], wi[n.String()]
+				if subsetOf(a.req, b.all) && subsetOf(b.req, a.all) {
+					clash = append(clash, n.Obj().Name())
+				}
+			}
+			sort.Strings(clash)
+			if len(clash) == 0 {
+				r.OK(key, rule, "x/*/types", m.Obj().Name()+" is rendered as a bare object but a required field separates it from every other unregistered custom message")
+			} else {
+				r.Fail(key, rule, modOf(m)+"/types/codec.go",
+					fmt.Sprintf("%s is not registered on %s's amino codec, so inside %s it is signed as a bare JSON object; with its optional fields empty it is byte-identical to %v (every required field of each exists in the other): a signature over %s{%s} also validates %s{%s}",
+						m.Obj().Name(), wr.name, wr.outer, clash, wr.outer, m.Obj().Name(), wr.outer, clash[0]))
+			}
+		}
+	}
+	r.Floor("wrapped-message-obligations", nWrap, 14)
 }
 
 func keys(m map[string]bool) []string {
